@@ -104,6 +104,23 @@ func runMutant(prop, self, file string) MutantResult {
 		return res
 	}
 	text := string(out)
+	// "expect: undecided <substring>": a broken variant whose construct the rules cannot interpret any more
+	// must at least not pass: UNDECIDED naming that construct (or a VIOLATION) is what is asked for
+	if len(expects) == 1 && strings.HasPrefix(expects[0], "undecided") {
+		sub := strings.TrimSpace(strings.TrimPrefix(expects[0], "undecided"))
+		switch {
+		case code == 0:
+			res.Outcome, res.Detail = "MISSED", "exit 0: neither a violation nor undecided"
+		case code == 2 && (sub == "" || strings.Contains(text, sub)):
+			res.Outcome = "caught"
+			res.Detail = "undecided (exit 2): " + firstLines(grepLines(text, "UNDECIDED"), 1)
+		case code == 1:
+			res.Outcome = "caught"
+		default:
+			res.Outcome, res.Detail = "MISSED", "undecided, but not about "+sub
+		}
+		return res
+	}
 	if code == 2 {
 		res.Outcome, res.Detail = "ERROR", "variant undecided: "+firstLines(grepLines(text, "UNDECIDED"), 2)
 		return res
